@@ -3,6 +3,8 @@ import ClairModel.Model.Rfc822
 import ClairModel.Model.Dpkg
 import ClairModel.Model.Apk
 import ClairModel.Model.OsRelease
+import ClairModel.Model.PyMeta
+import ClairModel.Model.Pep440
 
 namespace Driver.C02
 open ClairModel.Bytes ClairModel.Rfc822 ClairModel
@@ -25,6 +27,23 @@ def showApkPkg (p : Apk.Pkg) : String :=
     | none => ["nosrc"]
     | some (n, v) => ["src", hexB n, hexB v]
   ",".intercalate ([hexB p.name, hexB p.version, hexB p.arch, hexB p.hint] ++ src)
+
+def bytesToChars (b : Bytes) : List Char := b.map Char.ofNat
+def charsToBytes (c : List Char) : Bytes := c.map Char.toNat
+
+/-- what python's `Scan` reports for one candidate file: `none` (path not picked),
+    `skip` (version does not parse), or the package -/
+def pyAnswer (path file : Bytes) : String :=
+  match PyMeta.classify path with
+  | none => "absent"
+  | some _ =>
+    let nv := PyMeta.nameVersion file
+    match Pep440.parse (bytesToChars nv.2) with
+    | none => "absent"
+    | some v =>
+      let nvers := Pep440.project v
+      " ".intercalate ["ok", hexB nv.1, hexB (charsToBytes (Pep440.toStr v)), hexB (PyMeta.packageDB path),
+        ",".intercalate (nvers.v.map toString)]
 
 def showErr : Err → String
   | .ok => "nil"
@@ -67,6 +86,9 @@ def answer (l : String) : String :=
           "ok " ++ ",".intercalate [hexB d.name, hexB d.did, hexB d.version, hexB d.versionId, hexB d.codeName, hexB d.prettyName]
         | none => "err"
       | none => "bad-op"
+  | ["py", hp, hf] => match toBytes hp, toBytes hf with
+      | some p, some f => pyAnswer p f
+      | _, _ => "bad-op"
   | ["reset"] => "ok"
   | _ => "bad-op"
 
